@@ -25,9 +25,10 @@ CLAUSES = {
     "B.resume.scheme": "... combination scheme (level vectors with coefficients) equals that of the uninterrupted run",
     "B.resume.result": "... combined result equals that of the uninterrupted run (rel 1e-10 / abs 1e-12)",
     "B.resume.points": "... get_total_num_points() equals that of the uninterrupted run",
-    "B.restore.call": "restore_from_file(save_to_file(x))(points) == x(points) exactly at probe points; same current result, scheme, structure and point count",
-    "B.restore.eval": "evaluate_final_combi() of the restored instance returns exactly what it returns on (a deep copy of) the saved instance",
-    "B.restore.continue": "continuing the restored instance gives exactly the structure, scheme, result and point count obtained by continuing the saved instance itself",
+    "B.restore.call": "restore_from_file(save_to_file(x))(points) == x(points) at probe points (rel 1e-12: a restored set may iterate in another order, which "
+                      "permutes floating-point sums); same current result, scheme, structure and point count",
+    "B.restore.eval": "evaluate_final_combi() of the restored instance returns what it returns on (a deep copy of) the saved instance (rel 1e-12)",
+    "B.restore.continue": "continuing the restored instance gives the structure, scheme, point count and (rel 1e-12) result obtained by continuing the saved instance itself",
     "B.restore.final": "continuing the restored instance with the final limits ends where the uninterrupted run ends (structure, scheme, result, point count)",
 }
 
@@ -156,17 +157,17 @@ def check_case(ctx, case):
         same_state = (np.array_equal(np.array(I.operation.get_result(), float), np.array(R.operation.get_result(), float))
                       and dc.structure_sig(I) == dc.structure_sig(R) and dc.scheme_sig(I) == dc.scheme_sig(R)
                       and I.get_total_num_points() == R.get_total_num_points())
-        with quiet():
-            vI = np.array(I(P), float)
-            vR = np.array(R(P), float)
-        ctx.check("B.restore.call", same_state and np.array_equal(vI, vR), S_REST, st,
+        with quiet():  # on deep copies: interpolation evaluates the integrand and must not disturb the instances that are continued
+            vI = np.array(dc.clone(I)(P), float)
+            vR = np.array(dc.clone(R)(P), float)
+        ctx.check("B.restore.call", same_state and close(vI, vR, rel=1e-12, abs_=1e-14), S_REST, st,
                   "restored instance differs from the saved one: state equal %s (points %s vs %s); values at probe points %s vs %s"
                   % (same_state, R.get_total_num_points(), I.get_total_num_points(), vR[:2], vI[:2]))
     with ctx.guard("B.restore.eval", S_REST, st + "-eval-raises"):
         with quiet():
             e1 = np.array(dc.clone(I).evaluate_final_combi()[0], float)
             e2 = np.array(dc.clone(R).evaluate_final_combi()[0], float)
-        ctx.check("B.restore.eval", np.array_equal(e1, e2), S_REST, st, "evaluate_final_combi: saved %s restored %s" % (e1, e2))
+        ctx.check("B.restore.eval", close(e1, e2, rel=1e-12, abs_=1e-14), S_REST, st, "evaluate_final_combi: saved %s restored %s" % (e1, e2))
     gotI = gotR = None
     with ctx.guard("B.restore.continue", S_CONT, st + "-raises"):
         rr = dc.continue_adaptive(R, fin["tol"], fin["max"], fin.get("min", 1))
@@ -174,7 +175,7 @@ def check_case(ctx, case):
         ri = dc.continue_adaptive(I, fin["tol"], fin["max"], fin.get("min", 1))
         gotI = snapshot(dc, I, ri)
     if gotI is not None and gotR is not None:
-        ok = (gotI["structure"] == gotR["structure"] and gotI["scheme"] == gotR["scheme"] and np.array_equal(gotI["result"], gotR["result"])
+        ok = (gotI["structure"] == gotR["structure"] and gotI["scheme"] == gotR["scheme"] and close(gotI["result"], gotR["result"], rel=1e-12, abs_=1e-14)
               and gotI["points"] == gotR["points"])
         ctx.check("B.restore.continue", ok, S_REST, st, "continuation of restored instance %s / %d points, of saved instance %s / %d points"
                   % (gotR["result"], gotR["points"], gotI["result"], gotI["points"]))
